@@ -222,6 +222,46 @@ Theorem C08_search_candidates_relative : forall e parent fn ft maxlen, hd 0 fn <
 Proof. exact candidates_relative. Qed.
 Print Assumptions C08_search_candidates_relative.
 
+(* the list set by cg_set_path / cg_add_path / cg_configure is state: an emptying set clears it whatever it held ... *)
+Theorem C08_set_path_empty_clears : forall e a, arg_empty a = true -> mll_set_path e a = (env_path_delete_all e, true).
+Proof. exact set_path_empty_clears. Qed.
+Print Assumptions C08_set_path_empty_clears.
+Theorem C08_set_path_replaces : forall e p, lenZ p <> 0 ->
+  e_list (fst (mll_set_path e (Some p))) = [p] /\ snd (mll_set_path e (Some p)) = true.
+Proof. exact set_path_replaces. Qed.
+Print Assumptions C08_set_path_replaces.
+Theorem C08_add_path_appends : forall e p, lenZ p <> 0 ->
+  mll_add_path e (Some p) = (mkE (e_adf e) (e_hdf e) (e_cgns e) (e_list e ++ [p]), true).
+Proof. exact add_path_appends. Qed.
+Print Assumptions C08_add_path_appends.
+Theorem C08_add_path_empty_refused : forall e a, arg_empty a = true -> mll_add_path e a = (e, false).
+Proof. exact add_path_empty_refused. Qed.
+Print Assumptions C08_add_path_empty_refused.
+(* ... and afterwards a relative name is looked for in the default places and the environment variables only *)
+Theorem C08_search_after_empty_set : forall e a parent fn ft maxlen, arg_empty a = true -> hd 0 fn <> 47 ->
+  exists c1, candidates (fst (mll_set_path e a)) parent fn ft maxlen =
+    c1 ++ [CPath fn] ++ dir_cands (maxlen - 1 - lenZ fn - 1) fn (if ft =? 1 then e_adf e else if ft =? 2 then e_hdf e else [])
+       ++ dir_cands (maxlen - 1 - lenZ fn - 1) fn (e_cgns e).
+Proof. exact search_after_empty_set. Qed.
+Print Assumptions C08_search_after_empty_set.
+
+(* ---- creating under a link node --------------------------------------------------------------------------------------- *)
+Theorem C08_adf_create_under_link_refused : forall v s f df p u nm pr, disk_get (a_disk s) f = Some df ->
+  find_node (d_tab df) p = Some pr -> is_link pr = true -> adf_mutate v s f (OCreate p u nm) = (s, RErr).
+Proof. exact adf_create_under_link_refused. Qed.
+Print Assumptions C08_adf_create_under_link_refused.
+Theorem C08_h5_create_under_link_refused : forall d f df o, disk_get d f = Some df ->
+  h5_parent_is_link (d_tab df) o = true -> h5_mutate Cur d f o = (d, RErr).
+Proof. exact h5_create_under_link_refused. Qed.
+Print Assumptions C08_h5_create_under_link_refused.
+(* history: before 66db802 ADFH accepted the child -- under a dangling link too -- and put it where nothing finds it *)
+Theorem C08_h5_create_under_dangling_link_old_refuted :
+  h5_get Cur w_dangling (fH, 1) 1 = AErr ELinkTarget /\ h5_mutate Old w_dangling fH (OCreate 1 2 [99]) = (w_dangling, ROk).
+Proof. exact h5_create_under_dangling_link_old_refuted. Qed.
+Print Assumptions C08_h5_create_under_dangling_link_old_refuted.
+Example C08_h5_create_under_dangling_link_now_refused : h5_mutate Cur w_dangling fH (OCreate 1 2 [99]) = (w_dangling, RErr).
+Proof. exact h5_create_under_dangling_link_cur. Qed.
+
 (* ---- implicitly opened files ---------------------------------------------------------------------------------------- *)
 (* THE REPAIR (909ac4d), for every state: while a file has another reference -- a second handle, a link from another
    open file -- closing it drops that one reference and nothing else: no file it links to is touched or closed *)
